@@ -51,6 +51,48 @@ class Exec(ExecBase):
                         must_fail=must_fail, inputs=dict(self.inputs), st=st, where=where, note=note)
         self.obligations.append(ob)
 
+    # ---- incremental feasibility solver following the DFS over paths ------------------------------------
+    def _inc_init(self) -> None:
+        self.inc = z3.Solver()
+        self.inc.set("timeout", 1500)
+        self.inc_lens: List[int] = [0]
+        self.inc_last: List[Any] = [None]
+
+    def _inc_sync(self, st: State) -> Optional[int]:
+        """Make the incremental solver hold exactly st.pc; returns the stack depth to restore, or None if the
+        state is not an extension of what the solver holds (then a fresh solver is used)."""
+        if not hasattr(self, "inc"):
+            self._inc_init()
+        cur = self.inc_lens[-1]
+        if len(st.pc) < cur or (cur > 0 and st.pc[cur - 1] is not self.inc_last[-1]):
+            return None
+        depth = len(self.inc_lens)
+        self.inc.push()
+        if len(st.pc) > cur:
+            self.inc.add(*st.pc[cur:])
+        self.inc_lens.append(len(st.pc))
+        self.inc_last.append(st.pc[-1] if st.pc else None)
+        return depth
+
+    def _inc_restore(self, depth: int) -> None:
+        while len(self.inc_lens) > depth:
+            self.inc.pop()
+            self.inc_lens.pop()
+            self.inc_last.pop()
+
+    def feasible_with(self, st: State, extra: Any) -> bool:
+        depth = self._inc_sync(st)
+        if depth is None:
+            return smt.quick_feasible(st.pc + [extra])
+        try:
+            self.inc.push()
+            self.inc.add(extra)
+            r = self.inc.check()
+            self.inc.pop()
+            return r != z3.unsat
+        finally:
+            self._inc_restore(depth)
+
     def branch(self, cond: VBool, st: State, tag: str) -> Iterator[Tuple[bool, State]]:
         c = z3.simplify(cond.term)
         if z3.is_true(c):
@@ -59,22 +101,41 @@ class Exec(ExecBase):
         if z3.is_false(c):
             yield False, st
             return
-        for val, f in ((True, c), (False, z3.Not(c))):
-            st2 = st.assume(f).decide(f"{tag}={'T' if val else 'F'}")
-            if smt.quick_feasible(st2.pc):
-                nr = getattr(cond, "narrow", None)
-                if val and nr is not None and nr[0] in st2.env and isinstance(st2.env[nr[0]], VRef) \
-                        and st2.env[nr[0]].term.eq(nr[1]):
-                    st2 = st2.bind(nr[0], VRef(nr[1], nr[2], self))
-                yield val, st2
-            else:
-                self.infeasible_paths += 1
+        nr = getattr(cond, "narrow", None)
+        depth = self._inc_sync(st)
+        try:
+            for val, f in ((True, c), (False, z3.Not(c))):
+                st2 = st.assume(f).decide(f"{tag}={'T' if val else 'F'}")
+                if depth is None:
+                    ok = smt.quick_feasible(st2.pc)
+                    d2 = None
+                else:
+                    d2 = len(self.inc_lens)
+                    self.inc.push()
+                    self.inc.add(f)
+                    self.inc_lens.append(len(st2.pc))
+                    self.inc_last.append(st2.pc[-1])
+                    ok = self.inc.check() != z3.unsat
+                try:
+                    if ok:
+                        if val and nr is not None and nr[0] in st2.env and isinstance(st2.env[nr[0]], VRef) \
+                                and st2.env[nr[0]].term.eq(nr[1]):
+                            st2 = st2.bind(nr[0], VRef(nr[1], nr[2], self))
+                        yield val, st2
+                    else:
+                        self.infeasible_paths += 1
+                finally:
+                    if d2 is not None:
+                        self._inc_restore(d2)
+        finally:
+            if depth is not None:
+                self._inc_restore(depth)
 
     def narrow(self, v: V, st: State) -> V:
         """A union value of which only one alternative is feasible on this path is that alternative."""
         if not isinstance(v, VUnion):
             return v
-        live = [(g, a) for g, a in v.alts if smt.quick_feasible(st.pc + [g], 1000)]
+        live = [(g, a) for g, a in v.alts if self.feasible_with(st, g)]
         if len(live) == 1:
             return live[0][1]
         return v
@@ -138,13 +199,29 @@ class Exec(ExecBase):
 
     def ev_List(self, node: ast.List, st: State) -> Iterator[Tuple[V, State]]:
         for vs, st1 in self.ev_list(node.elts, st):
+            vs = [self.narrow(x, st1) for x in vs]
             ety = self.elem_type_of_values(vs) if vs else T.Int
             l, st2 = self.new_list(ety, "seq", st1, vs)
             yield l, st2
 
+    def ev_Dict(self, node: ast.Dict, st: State) -> Iterator[Tuple[V, State]]:
+        if any(k is None for k in node.keys):
+            raise Unsupported("dict unpacking")
+        for ks, st1 in self.ev_list(node.keys, st):
+            for vs, st2 in self.ev_list(node.values, st1):
+                if not ks:
+                    raise Unsupported("empty dict literal (element sorts unknown)")
+                kt, vt = self.elem_type_of_values(ks), self.elem_type_of_values(vs)
+                term = z3.K(sort_of(kt), to_term(vs[0], vt))
+                dom = z3.K(sort_of(kt), z3.BoolVal(False))
+                for k, v in zip(ks, vs):
+                    term = z3.Store(term, to_term(k, kt), to_term(v, vt))
+                    dom = z3.Store(dom, to_term(k, kt), z3.BoolVal(True))
+                yield VDict(kt, vt, term, dom), st2
+
     def ev_Set(self, node: ast.Set, st: State) -> Iterator[Tuple[V, State]]:
         for vs, st1 in self.ev_list(node.elts, st):
-            yield self.make_set(vs, None), st1
+            yield self.make_set([self.narrow(x, st1) for x in vs], None), st1
 
     def ev_JoinedStr(self, node: ast.JoinedStr, st: State) -> Iterator[Tuple[V, State]]:
         parts: List[ast.AST] = []
@@ -365,6 +442,7 @@ class Exec(ExecBase):
             yield self.lift(base.obj[key], st)
             return
         if isinstance(base, VDict):
+            idx = self.narrow(idx, st)
             kt = to_term(idx, base.key)
             self.oblige(st, "safe", f"key@{node.lineno}", z3.Select(base.dom, kt), where=where, tags=["C17"])
             st = st.assume(z3.Select(base.dom, kt))
@@ -411,7 +489,7 @@ class Exec(ExecBase):
             live = [(g, v) for g, v in obj.alts]
             for g, v in live:
                 st2 = st.assume(g).decide(f"u.{name}.{type(v).__name__}")
-                if not smt.quick_feasible(st2.pc):
+                if not self.feasible_with(st, g):
                     continue
                 if isinstance(v, VNone):
                     self.oblige(st2, "safe", f"none.{name}", z3.BoolVal(False), tags=["C17"])
@@ -592,7 +670,7 @@ class Exec(ExecBase):
         if isinstance(it, VPy) and isinstance(it.obj, range):
             return [VInt(i) for i in it.obj]
         if isinstance(it, VList) and it.view == "seq":
-            n = self._concrete_int(self.list_len(it, st).term, st)
+            n = self.known_len(it, st)
             if n is not None and n <= 64:
                 return [self.list_get(it, i, st) for i in range(n)]
         return None
@@ -817,7 +895,16 @@ class Exec(ExecBase):
         ns["new"] = OldView(self, st)
         for cl in c.ensures:
             g, st = self.eval_clause(cl, ns, st)
-            st = st.assume(_b(g))
+            if cl.known:
+                # a clause with a listed finding is only assumed outside the finding's case
+                from .dsl import Clause
+                conds = []
+                for fid, pred in cl.known.items():
+                    pc_, st = self.eval_clause(Clause(f"{cl.label}#{fid}", pred), ns, st)
+                    conds.append(_b(pc_))
+                st = st.assume(z3.Implies(z3.Not(z3.Or(conds)), _b(g)))
+            else:
+                st = st.assume(_b(g))
         yield res, st
 
     def havoc_modifies(self, c: Contract, ns: Dict[str, Any], st: State) -> State:
